@@ -11,14 +11,15 @@ Record obs := { o_cds_keys : list key; o_cds : bool; o_eds : bool; o_lds : bool;
                 partial EDS pushes resend only some ClusterLoadAssignments)
      held     = what the long-lived client holds for x equals what a forced push generates now, per resource name
      ctx      = x generated (no cache) from the live, partially updated PushContext equals x from a from-scratch PushContext
-     heldfull = what the client holds equals the latter *)
+     heldfull = what the client holds equals the latter
+     cache    = x generated for a new proxy through the XDS cache of the server equals x generated without the cache *)
 (* short constructors for harness-printed terms (plain applications elaborate much faster than record notation) *)
 Definition ky (k : kind) (ns nm : N) : key := {| kk := k; kns := ns; kname := nm |}.
 Definition ev (ks : list key) (r : reason) : event := {| ev_keys := ks; ev_reason := r |}.
 Definition px (t : node_type) (ns : N) (gw : bool) : proxy := {| ptype := t; cfg_ns := ns; is_ew := false; gw_changed := gw |}.
 Definition pxe (t : node_type) (ns : N) (ew gw : bool) : proxy := {| ptype := t; cfg_ns := ns; is_ew := ew; gw_changed := gw |}.
 
-Inductive xo := XO (x : xds) (decided sent equal narrow held ctx heldfull : bool).
+Inductive xo := XO (x : xds) (decided sent equal narrow held ctx heldfull cache : bool).
 Inductive cv := CV (x : xds) (equal new_equal : bool).
 
 Inductive case :=
@@ -82,7 +83,7 @@ Definition model_ok (c : case) : bool :=
   | HStep _ sc jw root _ evs p pneeds os =>
       let e := mk_env sc jw root in
       let r := merge_events false false evs in
-      forallb (fun o => match o with XO x decided _ _ _ _ _ _ =>
+      forallb (fun o => match o with XO x decided _ _ _ _ _ _ _ =>
                  if pneeds then Bool.eqb (needs_push x e r p) decided else negb decided end) os
   | HBatch _ _ _ _ => true
   | Converge _ _ _ _ => true
@@ -110,11 +111,11 @@ Definition prop_ok (c : case) : bool :=
   (* "whenever the control plane decides that a change does not concern a proxy or an xDS type and skips or narrows the
      push, the resources it did not resend are identical before and after the change" + the client is converged *)
   | HStep _ _ _ _ _ _ _ _ os =>
-      forallb (fun o => match o with XO _ decided sent equal narrow held ctx heldfull =>
-                 (decided || equal) && (sent || equal) && narrow && held && ctx && heldfull end) os
+      forallb (fun o => match o with XO _ decided sent equal narrow held ctx heldfull cache =>
+                 (decided || equal) && (sent || equal) && narrow && held && ctx && heldfull && cache end) os
   | HBatch _ _ _ os =>
-      forallb (fun o => match o with XO _ _ sent equal narrow held ctx heldfull =>
-                 (sent || equal) && narrow && held && ctx && heldfull end) os
+      forallb (fun o => match o with XO _ _ sent equal narrow held ctx heldfull cache =>
+                 (sent || equal) && narrow && held && ctx && heldfull && cache end) os
   | Converge _ _ _ os => forallb (fun o => match o with CV _ equal new_equal => equal && new_equal end) os
   end.
 
